@@ -22,23 +22,23 @@ type Inject struct {
 }
 
 type Vec struct {
-	ID     string
-	W      [13]uint16 // AF BC DE HL AF' BC' DE' HL' IR IX IY SP PC
-	IFF1   bool
-	IFF2   bool
-	HALT   bool
-	IM     int
-	HasIO  bool
-	HasRN  bool
-	HasRI  bool
-	Intr   *Intr
+	ID      string
+	W       [13]uint16 // AF BC DE HL AF' BC' DE' HL' IR IX IY SP PC
+	IFF1    bool
+	IFF2    bool
+	HALT    bool
+	IM      int
+	HasIO   bool
+	HasRN   bool
+	HasRI   bool
+	Intr    *Intr
 	MemSeed uint
-	Over   []Override
+	Over    []Override
 	DevSeed uint
-	N      int
-	Inj    []Inject
-	BP     string // "nil", "-" or comma separated hex addresses
-	Kind   string
+	N       int
+	Inj     []Inject
+	BP      string // "nil", "-" or comma separated hex addresses
+	Kind    string
 }
 
 type Override struct {
@@ -282,13 +282,21 @@ func (e Ev) code() uint64 {
 }
 
 type World struct {
-	memSeed uint
-	devSeed uint
-	mem     map[uint16]uint8
-	log     []Ev
-	nPort   int
-	written map[uint16]bool
+	memSeed  uint
+	devSeed  uint
+	mem      map[uint16]uint8
+	log      []Ev
+	nPort    int
+	written  map[uint16]bool
 	onAccess func(w *World, e Ev) // optional callback (devices that raise interrupts)
+	reqs     []reqRec             // every request object handed to the CPU in this run, with the bytes it was built from
+}
+
+// reqRec: a request object belongs to the host: the CPU may read it and drop its pointer, never change it
+type reqRec struct {
+	obj  *z80.Interrupt
+	ty   int
+	data []uint8
 }
 
 func memDefault(seed uint, a uint16) uint8 {
@@ -397,7 +405,7 @@ func buildCPU(v *Vec, w *World) *z80.CPU {
 		cpu.RETIHandler = recRETI{w}
 	}
 	if v.Intr != nil {
-		cpu.Interrupt = mkIntr(v.Intr.Type, v.Intr.Data)
+		cpu.Interrupt = mkIntr(w, v.Intr.Type, v.Intr.Data)
 	}
 	switch v.BP {
 	case "nil", "":
@@ -462,25 +470,39 @@ func resultStr(id string, cpu *z80.CPU, w *World) string {
 	} else {
 		sb.WriteString("...")
 	}
+	// the host's request objects must be exactly as they were handed over (hidden state outside States and memory otherwise)
+	for i, q := range w.reqs {
+		if int(q.obj.Type) != q.ty || len(q.obj.Data) != len(q.data) || hexBytes(q.obj.Data) != hexBytes(q.data) {
+			fmt.Fprintf(&sb, " REQUEST-OBJECT-CHANGED #%d built=%d:%s now=%d:%s", i, q.ty, hexBytes(q.data), int(q.obj.Type), hexBytes(q.obj.Data))
+		}
+	}
 	return sb.String()
 }
 
 // mkIntr: the request (type, data) as a user would build it — through the package's own constructors whenever one of them can express
 // it (NMIInterrupt, IM1Interrupt, IM2Interrupt, IM0Interrupt), so that the constructors are part of what is compared; a plain struct
 // literal otherwise (NMI carrying data, unknown types)
-func mkIntr(ty int, data []uint8) *z80.Interrupt {
+func mkIntr(w *World, ty int, data []uint8) *z80.Interrupt {
+	var q *z80.Interrupt
+	alt := (w.memSeed+uint(len(w.reqs)))%2 == 1 // varies from vector to vector (no shared state: the harness also runs under the race detector)
 	switch {
-	case ty == int(z80.NMIType) && len(data) == 0:
-		return z80.NMIInterrupt()
-	case ty == int(z80.IMType) && len(data) == 0:
-		return z80.IM1Interrupt()
+	case ty == int(z80.NMIType) && len(data) == 0 && !alt:
+		q = z80.NMIInterrupt()
+	case ty == int(z80.IMType) && len(data) == 0 && !alt:
+		q = z80.IM1Interrupt() // Data is nil
+	case len(data) == 0:
+		q = &z80.Interrupt{Type: z80.InterruptType(ty), Data: []uint8{}} // empty but NOT nil
 	case ty == int(z80.IMType) && len(data) == 1:
-		if data[0]&0x10 == 0 { // no shared state here: the harness also runs under the race detector
-			return z80.IM2Interrupt(data[0])
+		if data[0]&0x10 == 0 {
+			q = z80.IM2Interrupt(data[0])
+		} else {
+			q = z80.IM0Interrupt(data[0])
 		}
-		return z80.IM0Interrupt(data[0])
 	case ty == int(z80.IMType):
-		return z80.IM0Interrupt(data[0], data[1:]...)
+		q = z80.IM0Interrupt(data[0], data[1:]...)
+	default:
+		q = &z80.Interrupt{Type: z80.InterruptType(ty), Data: append([]uint8{}, data...)}
 	}
-	return &z80.Interrupt{Type: z80.InterruptType(ty), Data: append([]uint8{}, data...)}
+	w.reqs = append(w.reqs, reqRec{q, ty, append([]uint8{}, data...)})
+	return q
 }
